@@ -366,6 +366,11 @@ theorem all_AdamStep : eAdamStep.acceptedAll = true := by decide +kernel
 theorem all_AscentStep : eAscentStep.acceptedAll = true := by decide +kernel
 theorem all_ParallelAxes : eParallelAxes.acceptedAll = true := by decide +kernel
 theorem all_HeatmapDf : eHeatmapDf.acceptedAll = true := by decide +kernel
+theorem all_FromRaw : eFromRaw.acceptedAll = true := by decide +kernel
+theorem all_CvtInit : eCvtInit.acceptedAll = true := by decide +kernel
+theorem all_GridInit : eGridInit.acceptedAll = true := by decide +kernel
+theorem all_EmitterInit : eEmitterInit.acceptedAll = true := by decide +kernel
+theorem all_OptInit : eOptInit.acceptedAll = true := by decide +kernel
 
 /-- `eStoreAdd` is accepted for both branches of every `asarray` and every code branch -/
 theorem accepted_StoreAdd : ∀ bits : List Bool, bits.length = eStoreAdd.nbits → eStoreAdd.accepts bits = true :=
@@ -472,13 +477,28 @@ theorem accepted_ParallelAxes : ∀ bits : List Bool, bits.length = eParallelAxe
 /-- `eHeatmapDf` is accepted for both branches of every `asarray` and every code branch -/
 theorem accepted_HeatmapDf : ∀ bits : List Bool, bits.length = eHeatmapDf.nbits → eHeatmapDf.accepts bits = true :=
   accepts_of_all _ all_HeatmapDf
+/-- `eFromRaw` is accepted for both branches of every `asarray` and every code branch -/
+theorem accepted_FromRaw : ∀ bits : List Bool, bits.length = eFromRaw.nbits → eFromRaw.accepts bits = true :=
+  accepts_of_all _ all_FromRaw
+/-- `eCvtInit` is accepted for both branches of every `asarray` and every code branch -/
+theorem accepted_CvtInit : ∀ bits : List Bool, bits.length = eCvtInit.nbits → eCvtInit.accepts bits = true :=
+  accepts_of_all _ all_CvtInit
+/-- `eGridInit` is accepted for both branches of every `asarray` and every code branch -/
+theorem accepted_GridInit : ∀ bits : List Bool, bits.length = eGridInit.nbits → eGridInit.accepts bits = true :=
+  accepts_of_all _ all_GridInit
+/-- `eEmitterInit` is accepted for both branches of every `asarray` and every code branch -/
+theorem accepted_EmitterInit : ∀ bits : List Bool, bits.length = eEmitterInit.nbits → eEmitterInit.accepts bits = true :=
+  accepts_of_all _ all_EmitterInit
+/-- `eOptInit` is accepted for both branches of every `asarray` and every code branch -/
+theorem accepted_OptInit : ∀ bits : List Bool, bits.length = eOptInit.nbits → eOptInit.accepts bits = true :=
+  accepts_of_all _ all_OptInit
 
 /-- **T12.2** all transcriptions at once -/
 theorem entries_accepted : ∀ E, E ∈ entries → ∀ bits : List Bool, bits.length = E.nbits →
     E.accepts bits = true := by
   intro E hE
   simp only [entries, List.mem_cons, List.not_mem_nil, or_false] at hE
-  rcases hE with rfl | rfl | rfl | rfl | rfl | rfl | rfl | rfl | rfl | rfl | rfl | rfl | rfl | rfl | rfl | rfl | rfl | rfl | rfl | rfl | rfl | rfl | rfl | rfl | rfl | rfl | rfl | rfl | rfl | rfl | rfl | rfl | rfl | rfl | rfl
+  rcases hE with rfl | rfl | rfl | rfl | rfl | rfl | rfl | rfl | rfl | rfl | rfl | rfl | rfl | rfl | rfl | rfl | rfl | rfl | rfl | rfl | rfl | rfl | rfl | rfl | rfl | rfl | rfl | rfl | rfl | rfl | rfl | rfl | rfl | rfl | rfl | rfl | rfl | rfl | rfl | rfl
   · exact accepted_StoreAdd
   · exact accepted_StoreRetrieve
   · exact accepted_StoreData
@@ -514,6 +534,11 @@ theorem entries_accepted : ∀ E, E ∈ entries → ∀ bits : List Bool, bits.l
   · exact accepted_AscentStep
   · exact accepted_ParallelAxes
   · exact accepted_HeatmapDf
+  · exact accepted_FromRaw
+  · exact accepted_CvtInit
+  · exact accepted_GridInit
+  · exact accepted_EmitterInit
+  · exact accepted_OptInit
 
 /-- **T12.1 + T12.2 combined**: for every transcribed entry point, every branch combination, every
 content type, data function and initial heap: the transcription runs to completion, caller regions
@@ -553,13 +578,18 @@ theorem rejected_AdamInplace : nAdamInplace.holds = true := by decide +kernel
 theorem rejected_AddKeeps : nAddKeeps.holds = true := by decide +kernel
 theorem rejected_XfWritesNew : nXfWritesNew.holds = true := by decide +kernel
 theorem rejected_RawWrite : nRawWrite.holds = true := by decide +kernel
+theorem rejected_D38cvt : nD38cvt.holds = true := by decide +kernel
+theorem rejected_D38init : nD38init.holds = true := by decide +kernel
+theorem rejected_D41 : nD41.holds = true := by decide +kernel
+theorem rejected_D36 : nD36.holds = true := by decide +kernel
+theorem rejected_ObjAsStored : nObjAsStored.holds = true := by decide +kernel
 
 theorem negatives_rejected : ∀ n, n ∈ negatives → n.E.verdict n.bits = some n.why := by
   intro n hn
   simp only [negatives, List.mem_cons, List.not_mem_nil, or_false] at hn
   have key : ∀ m : Neg, m.holds = true → m.E.verdict m.bits = some m.why := by
     intro m hm; simpa [Neg.holds] using hm
-  rcases hn with rfl | rfl | rfl | rfl | rfl | rfl | rfl | rfl | rfl | rfl | rfl | rfl
+  rcases hn with rfl | rfl | rfl | rfl | rfl | rfl | rfl | rfl | rfl | rfl | rfl | rfl | rfl | rfl | rfl | rfl | rfl
   · exact key _ rejected_D7
   · exact key _ rejected_D10
   · exact key _ rejected_D10b
@@ -572,6 +602,17 @@ theorem negatives_rejected : ∀ n, n ∈ negatives → n.E.verdict n.bits = som
   · exact key _ rejected_AddKeeps
   · exact key _ rejected_XfWritesNew
   · exact key _ rejected_RawWrite
+  · exact key _ rejected_D38cvt
+  · exact key _ rejected_D38init
+  · exact key _ rejected_D41
+  · exact key _ rejected_D36
+  · exact key _ rejected_ObjAsStored
+
+/-- seeded C12-7: handing out entries of object fields "as stored" is fine for numeric fields' copies and
+rejected exactly in the object-field branch. -/
+theorem object_entries_only_object_branch :
+    nObjAsStored.E.verdict [true] = some (.retInternal 6) ∧ nObjAsStored.E.verdict [false] = none := by
+  decide +kernel
 
 /-- D10 only shows when no conversion happens: with a list / other-dtype Jacobian the very same
 defective code is accepted — the reason example-based tests do not see it. -/
@@ -585,8 +626,8 @@ the new best elite, and returns two arrays; the list of entry points is not empt
 theorem nonvacuous :
     (match eAdd.check [false, false, false, false, false, true] with
      | .ok c => decide (c.own 0 = .caller ∧ c.env 10 = some ⟨0, true⟩ ∧ c.stored.length = 2 ∧
-                        c.rets.length = 2 ∧ c.own 64 = .internal ∧ c.own 32 = .fresh)
-     | .error _ => false) = true ∧ entries.length = 35 ∧ negatives.length = 12 := by
+                        c.rets.length = 2 ∧ c.own 65 = .internal ∧ c.own 33 = .fresh)
+     | .error _ => false) = true ∧ entries.length = 40 ∧ negatives.length = 17 := by
   decide +kernel
 
 /-! ## T12.3 all read paths present the same rows in the same order -/
